@@ -1,8 +1,10 @@
 (* C22 - `//dir/...` expansion.  Executable model of plz.FindAllBuildFiles (src/plz/plz.go), of the
    fs.Walk / godirwalk.Walk traversal it runs on (src/fs/walk.go; sorted children, filepath.SkipDir
-   semantics), of the file-name -> package conversion in findOriginalTask, and of query.isExcluded
-   (src/query/completions.go).  The literals come from Gen/FindBuildFiles.v, regenerated from the source
+   semantics), of the file-name -> package conversion in findOriginalTask, of findOriginalTaskSet (several
+   labels on one command line), and of query.isExcluded / query.containsPackage (src/query/completions.go:
+   the breadth-first search behind the completion of `//dir/`).  The literals come from Gen/FindBuildFiles.v, regenerated from the source
    on every run.  No proofs here. *)
+From Coq Require Import String.
 From PlzV Require Import Base.Harness.
 From PlzV Require Gen.FindBuildFiles.
 
@@ -178,6 +180,99 @@ Definition expand (cfg : config) (dir : str) (root : node) : option (list str) :
 Definition is_excluded (cfg : config) (dir : str) : bool :=
   str_eqb dir (s FindBuildFiles.completions_out_dir) || existsb (str_eqb (base dir)) (blacklist cfg).
 
+(* ---------------------------------------------------------------- several labels on one command line *)
+
+(* One command-line label (empty subrepo, host architecture): `//root/...` together with the tree found at
+   root, or any other label //pkg:name (`:all` included), which findOriginalTask adds as it is. *)
+Inductive target :=
+| TDots (root : str) (t : node)
+| TLabel (pkg name : str).
+
+(* findOriginalTask(state, target, addToList, arch): the (package, name) pairs handed to AddOriginalTarget *)
+Definition original_task (cfg : config) (tg : target) : option (list (str * str)) :=
+  match tg with
+  | TDots root t => match expand cfg root t with
+                    | Some pkgs => Some (map (fun p => (p, s FindBuildFiles.all_targets_name)) pkgs)
+                    | None => None
+                    end
+  | TLabel pkg name => Some [(pkg, name)]
+  end.
+
+(* findOriginalTaskSet is translated by gotrans (statements before the loop, range expression, loop body).
+   The model interprets exactly one program: no prelude, ranging over ReadStdinLabels(targets) (= targets
+   when no label is `-`), the body being the single call of findOriginalTask.  Anything else is not run. *)
+Definition strings_eqb (a b : list string) : bool := list_eqb String.eqb a b.
+Definition task_set_ok : bool :=
+  strings_eqb FindBuildFiles.task_set_prelude []
+  && String.eqb FindBuildFiles.task_set_range "ReadStdinLabels(targets)"
+  && strings_eqb FindBuildFiles.task_set_body ["findOriginalTask(state, target, addToList, arch)"%string].
+
+(* for _, target := range targets { findOriginalTask(...) } *)
+Fixpoint task_loop (cfg : config) (tgs : list target) : option (list (str * str)) :=
+  match tgs with
+  | [] => Some []
+  | tg :: r => match original_task cfg tg, task_loop cfg r with
+               | Some a, Some b => Some (a ++ b)
+               | _, _ => None
+               end
+  end.
+
+Definition original_task_set (cfg : config) (tgs : list target) : option (list (str * str)) :=
+  if task_set_ok then task_loop cfg tgs else None.
+
+(* ---------------------------------------------------------------- completion: query.containsPackage *)
+
+(* what containsPackage does when the directory taken off the queue is excluded - translated by gotrans *)
+Inductive reaction := RContinue | RReturn (b : bool).
+Definition on_excluded : reaction :=
+  if String.eqb FindBuildFiles.contains_on_excluded "continue" then RContinue
+  else if String.eqb FindBuildFiles.contains_on_excluded "return false" then RReturn false
+  else RReturn true.
+
+(* for _, info := range infos { if info.IsDir() { queue = append(queue, Join(dir, name)) }
+                                if IsABuildFile(name) { return true } }
+   None = returned true; Some q = fell off the end with the queue q.  A symlink to a directory is not IsDir(). *)
+Fixpoint cp_entries (cfg : config) (dir : str) (es : list (str * node)) (q : list (str * node))
+  : option (list (str * node)) :=
+  match es with
+  | [] => Some q
+  | (n, c) :: r =>
+      let q' := match c with Dir _ => q ++ [(join dir n, c)] | File _ => q end in
+      if is_build_file cfg n then None else cp_entries cfg dir r q'
+  end.
+
+(* the breadth-first search; the queue holds (path, node found there); os.ReadDir sorts by name.
+   None = out of fuel, or os.ReadDir of a non-directory (log.Fatalf; only directories are ever queued). *)
+Fixpoint cp_bfs (re : reaction) (cfg : config) (fuel : nat) (q : list (str * node)) : option bool :=
+  match fuel with
+  | O => None
+  | S fuel' =>
+      match q with
+      | [] => Some false
+      | (dir, n) :: q' =>
+          if is_excluded cfg dir
+          then match re with RContinue => cp_bfs re cfg fuel' q' | RReturn b => Some b end
+          else match n with
+               | File _ => None
+               | Dir cs => match cp_entries cfg dir (sort_by cs) q' with
+                           | None => Some true
+                           | Some q'' => cp_bfs re cfg fuel' q''
+                           end
+               end
+      end
+  end.
+
+Fixpoint node_size (n : node) : nat :=
+  match n with
+  | File _ => 1
+  | Dir cs => S ((fix go (l : list (str * node)) : nat :=
+                    match l with [] => O | nc :: r => node_size (snd nc) + go r end) cs)
+  end.
+
+(* containsPackage(config, dir) on the node found at dir; the fuel is shown to suffice (Proof/C22.v) *)
+Definition contains_package (cfg : config) (dir : str) (n : node) : option bool :=
+  cp_bfs on_excluded cfg (S (node_size n)) [(dir, n)].
+
 (* ---------------------------------------------------------------- correspondence cases *)
 
 Fixpoint sort_strs (l : list str) : list str :=
@@ -201,12 +296,40 @@ Fixpoint P (cs : list str) : str :=
 Inductive case :=
 (* FindAllBuildFiles(cfg, root, prefix) on the tree t found at root: the names received from the channel,
    in order; and (prefix = "" only) the package names of the labels findOriginalTask(//root/...) added, sorted *)
-| CFind (bfn bl exp : list str) (root prefix : str) (t : node) (files : list str) (labels : option (list str)).
+| CFind (bfn bl exp : list str) (root prefix : str) (t : node) (files : list str) (labels : option (list str))
+(* findOriginalTaskSet(state, targets, true, host arch) for a whole command line: the (package, name) pairs of
+   the parse tasks queued (one per AddOriginalTarget call, duplicates kept), sorted by package then name *)
+| CSet (bfn bl exp : list str) (tgs : list target) (labels : list (str * str))
+(* containsPackage(cfg, dir) on the tree t found at dir *)
+| CContains (bfn bl exp : list str) (dir : str) (t : node) (found : bool).
 
 Definition strs_eqb := list_eqb str_eqb.
 
+Definition pair_ltb (a b : str * str) : bool :=
+  str_ltb (fst a) (fst b) || (str_eqb (fst a) (fst b) && str_ltb (snd a) (snd b)).
+Fixpoint sort_pairs (l : list (str * str)) : list (str * str) :=
+  match l with
+  | [] => []
+  | x :: r => (fix ins (l : list (str * str)) : list (str * str) :=
+                 match l with
+                 | [] => [x]
+                 | y :: r' => if pair_ltb y x then y :: ins r' else x :: l
+                 end) (sort_pairs r)
+  end.
+Definition pair_eqb (a b : str * str) : bool := str_eqb (fst a) (fst b) && str_eqb (snd a) (snd b).
+
 Definition check (c : case) : bool :=
   match c with
+  | CSet bfn bl exp tgs labels =>
+      match original_task_set (Config bfn bl exp) tgs with
+      | Some out => list_eqb pair_eqb (sort_pairs out) labels
+      | None => false
+      end
+  | CContains bfn bl exp dir t found =>
+      match contains_package (Config bfn bl exp) dir t with
+      | Some b => Bool.eqb b found
+      | None => false
+      end
   | CFind bfn bl exp root prefix t files labels =>
       match find (Config bfn bl exp) root prefix t with
       | Some out => strs_eqb out files
